@@ -861,6 +861,9 @@ def check_property(pid, tier, only=None, keep=False):
     units = [u for u in load_units() if pid in u['properties']]
     if tier == 'quick':
         units = [u for u in units if u.get('tier', 'quick') == 'quick']
+    else:
+        # 'attic' units (did not finish within the tool limits / not closed) belong to no registered check
+        units = [u for u in units if u.get('tier', 'quick') in ('quick', 'thorough')]
     if only:
         units = [u for u in units if u['name'] in only]
     # seed testing: VERIF_CHANGED_FILES=<repo files touched by a change> restricts the run to the units whose
